@@ -25,8 +25,8 @@
 (*   req   keys the property demands in the read set (semantic account,    *)
 (*         see ReqScan): never compared for equality with the recorded     *)
 (*         read set, only for inclusion.                                   *)
-(*   un, uout   UTXO sandbox: number of utxos (each worth UAmt) consumed,  *)
-(*         outputs produced ([to, amt]).                                   *)
+(*   pool, un, uout   UTXO sandbox: utxos (each worth UAmt) the reader can *)
+(*         hand out, number consumed, outputs produced ([to, amt]).        *)
 (*                                                                         *)
 (* Keys are pairs <<bucket, name>>, bucket 0 = the transient bucket.       *)
 (* A scan Select(b, lo, hi, lim) reads names lo <= n < hi of bucket b and  *)
@@ -51,12 +51,14 @@ CONSTANTS N1, N2, NT,     \* names 1..N1 in bucket 1, 1..N2 in bucket 2, 1..NT i
           KF_ScanInvertedRangePanics,   \* scan with start > end over the real XModel: nil iterator dereferenced
           KF_ScanOpenEndSkipsBacking    \* scan with empty end key: the real XModel iterates nothing, the caches iterate to the bucket end
 
-VARIABLES mode, bk, inp, out, req, un, uout, nops, hist
-vars == <<mode, bk, inp, out, req, un, uout, nops, hist>>
+VARIABLES mode, bk, inp, out, req, pool, un, uout, nops, hist
+vars == <<mode, bk, inp, out, req, pool, un, uout, nops, hist>>
 
 TB == 0
 UAmt == 2
-Keys == ({1} \X (1..N1)) \cup ({2} \X (1..N2)) \cup ({TB} \X (1..NT))
+\* written as explicit enumerations: TLC then keeps every set derived from Keys as an explicit (eager) set value;
+\* lazily evaluated set values inside states are not safe with TLC's concurrent disk queue
+Keys == {<<1, n>> : n \in 1..N1} \cup {<<2, n>> : n \in 1..N2} \cup {<<TB, n>> : n \in 1..NT}
 NamesOf(b) == IF b = 1 THEN N1 ELSE IF b = 2 THEN N2 ELSE NT
 KeyLess(a, b) == a[1] < b[1] \/ (a[1] = b[1] /\ a[2] < b[2])
 SortKeys(S) == SetToSortSeq(S, KeyLess)
@@ -74,10 +76,12 @@ EntryVal(st) == IF st = "live" THEN OldVal ELSE IF st = "del" THEN DelMark ELSE 
 SemVal(bx, o, k) == IF o[k] # NoWrite THEN (IF o[k] = DelMark THEN Absent ELSE o[k])
                     ELSE IF bx[k] = "live" THEN OldVal ELSE Absent
 InRange(k, b, lo, hi) == k[1] = b /\ k[2] >= lo /\ (hi = 0 \/ k[2] < hi)
-Entries(S, val(_)) == LET s == SortKeys(S) IN [j \in 1..Len(s) |-> [k |-> s[j], v |-> val(s[j])]]
+(* the keys of S (all of one bucket b) in key order with their values: no sorting needed, names are 1..N *)
+Entries(b, S, val(_)) == LET s == SelectSeq([n \in 1..NamesOf(b) |-> <<b, n>>], LAMBDA k : k \in S)
+                         IN [j \in 1..Len(s) |-> [k |-> s[j], v |-> val(s[j])]]
 (* exactly the live keys of the range, in order *)
 SemFull(bx, o, b, lo, hi) ==
-  Entries({k \in Keys : InRange(k, b, lo, hi) /\ SemVal(bx, o, k) # Absent}, LAMBDA k : SemVal(bx, o, k))
+  Entries(b, {k \in Keys : InRange(k, b, lo, hi) /\ SemVal(bx, o, k) # Absent}, LAMBDA k : SemVal(bx, o, k))
 
 (* ------------------------------------------------------------------ mechanism ------ *)
 (* iterator.go: multiIterator = merge of two ordered streams, the front one wins on equal keys *)
@@ -95,11 +99,11 @@ StripEmp(s) == SelectSeq(s, LAMBDA e : e.v # "")      \* programs never write th
 MechFull(kfDel, kfEmp, kfOpen, bx, m, i, o, b, lo, hi) ==
   LET R       == {k \in Keys : InRange(k, b, lo, hi)}
       strip(s) == IF kfEmp THEN StripDel(s) ELSE StripEmp(StripDel(s))
-      outSeq  == Entries({k \in R : o[k] # NoWrite}, LAMBDA k : o[k])
-      inSeq   == strip(Entries(R \cap i, LAMBDA k : EntryVal(bx[k])))
+      outSeq  == Entries(b, {k \in R : o[k] # NoWrite}, LAMBDA k : o[k])
+      inSeq   == strip(Entries(b, R \cap i, LAMBDA k : EntryVal(bx[k])))
       table   == IF m = "xm" THEN (IF hi = 0 /\ kfOpen THEN {} ELSE {k \in R : bx[k] = "live"})
                  ELSE {k \in R : bx[k] \in {"live", "del", "emp"}}
-      backSeq == strip(Entries(table, LAMBDA k : EntryVal(bx[k])))
+      backSeq == strip(Entries(b, table, LAMBDA k : EntryVal(bx[k])))
       merged  == Merge(outSeq, Merge(inSeq, backSeq))
   IN IF kfDel THEN merged ELSE StripDel(merged)
 
@@ -120,8 +124,9 @@ ScanDev(bx, m, i, o, b, lo, hi, lim) ==
 (* end of the scan was observed, i.e. fewer than lim items existed).  Never-written and deleted  *)
 (* keys inside the range are NOT demanded (R6: a read set of versioned keys cannot name a key    *)
 (* the scan never saw; the replay clause of the property does not need them either).             *)
-ReqScan(bx, o, full, b, lo, hi, lim) ==
-  LET R == {k \in Keys : InRange(k, b, lo, hi) /\ o[k] = NoWrite /\ bx[k] = "live"}
+ReqScan(bx, m, o, full, b, lo, hi, lim) ==
+  LET R == IF m = "xm" /\ hi = 0 /\ KF_ScanOpenEndSkipsBacking THEN {}     \* the deviating scan never looks at the backing state
+           ELSE {k \in Keys : InRange(k, b, lo, hi) /\ o[k] = NoWrite /\ bx[k] = "live"}
   IN IF Len(full) < lim THEN R
      ELSE IF lim = 0 THEN {}
      ELSE {k \in R : ~KeyLess(full[lim].k, k)}
@@ -129,9 +134,9 @@ ReqScan(bx, o, full, b, lo, hi, lim) ==
 (* ------------------------------------------------------------------ state ---------- *)
 Idle == [k \in Keys |-> "never"]
 Init == /\ mode = "idle" /\ bk = Idle /\ inp = {} /\ out = [k \in Keys |-> NoWrite] /\ req = {}
-        /\ un = 0 /\ uout = <<>> /\ nops = 0 /\ hist = <<>>
+        /\ pool = 0 /\ un = 0 /\ uout = <<>> /\ nops = 0 /\ hist = <<>>
 Reset == /\ mode' = "idle" /\ bk' = Idle /\ inp' = {} /\ out' = [k \in Keys |-> NoWrite] /\ req' = {}
-         /\ un' = 0 /\ uout' = <<>> /\ nops' = 0 /\ hist' = <<>>
+         /\ pool' = 0 /\ un' = 0 /\ uout' = <<>> /\ nops' = 0 /\ hist' = <<>>
 
 Log(e) == /\ hist' = IF KeepHist THEN Append(hist, e) ELSE <<e>>
           /\ nops' = nops + 1
@@ -142,11 +147,30 @@ BkSeq(f) == LET s == SortKeys(Keys) IN [j \in 1..Len(s) |-> [b |-> s[j][1], n |-
 
 XmStates == [Keys -> {"never", "live", "del"}]
 (* A new execution over a real XModel in state f (transient keys are never persisted). *)
-Start(f) ==
+Start(f, nu) ==
   /\ mode = "idle" /\ f \in XmStates /\ \A k \in Keys : k[1] = TB => f[k] = "never"
-  /\ mode' = "xm" /\ bk' = f
+  /\ mode' = "xm" /\ bk' = f /\ pool' = nu
   /\ UNCHANGED <<inp, out, req, un, uout>>
-  /\ hist' = <<[op |-> "init", bk |-> BkSeq(f), nu |-> NU]>> /\ nops' = 0
+  /\ hist' = <<[op |-> "init", bk |-> BkSeq(f), nu |-> nu]>> /\ nops' = 0
+
+(* The verification-time run: the same calls over readers built from the recorded read set rs      *)
+(* (XMReaderFromRWSet) and the recorded utxo inputs (NewUTXOReaderFromInput) alone.                 *)
+Replay(rs, nin) ==
+  /\ mode = "xm"
+  /\ mode' = "rs" /\ pool' = nin
+  /\ bk' = [k \in Keys |->
+             IF \E i \in 1..Len(rs) : rs[i].b = k[1] /\ rs[i].n = k[2]
+             THEN LET v == rs[CHOOSE i \in 1..Len(rs) : rs[i].b = k[1] /\ rs[i].n = k[2]].v
+                  IN IF v = OldVal THEN "live" ELSE IF v = DelMark THEN "del" ELSE "emp"
+             ELSE "nf"]
+  /\ inp' = {} /\ out' = [k \in Keys |-> NoWrite] /\ req' = {} /\ un' = 0 /\ uout' = <<>>
+  /\ hist' = <<[op |-> "replay"]>> /\ nops' = 0
+
+(* RWSet() / UTXORWSet() after Flush(): a pure observation *)
+Finish ==
+  /\ mode \in {"xm", "rs"}
+  /\ UNCHANGED <<mode, bk, inp, out, req, pool, un, uout, nops>>
+  /\ hist' = IF KeepHist THEN Append(hist, [op |-> "rwset"]) ELSE <<[op |-> "rwset"]>>
 
 Running == mode \in {"xm", "rs"} /\ nops < MaxOps
 
@@ -157,7 +181,7 @@ Get(k) ==
   /\ Running /\ k \in Keys
   /\ inp' = IF Reads(k) THEN inp \cup {k} ELSE inp
   /\ req' = IF Reads(k) /\ k[1] # TB THEN req \cup {k} ELSE req
-  /\ UNCHANGED <<mode, bk, out, un, uout>>
+  /\ UNCHANGED <<mode, bk, out, pool, un, uout>>
   /\ Log([op |-> "get", b |-> k[1], n |-> k[2], res |-> SemVal(bk, out, k), items |-> NoItems, dv |-> NoDev])
 
 (* Put forces a read of the key first (not for the transient bucket); Del = Put of the delete marker *)
@@ -166,39 +190,41 @@ Write(k, v, e) ==
   /\ out' = [out EXCEPT ![k] = v]
   /\ inp' = IF k[1] # TB /\ Reads(k) THEN inp \cup {k} ELSE inp
   /\ req' = IF k[1] # TB /\ Reads(k) THEN req \cup {k} ELSE req
-  /\ UNCHANGED <<mode, bk, un, uout>>
+  /\ UNCHANGED <<mode, bk, pool, un, uout>>
   /\ Log(e)
 Put(k, v) == v \in Vals /\ Write(k, v, [op |-> "put", b |-> k[1], n |-> k[2], v |-> v, res |-> "ok", items |-> NoItems, dv |-> NoDev])
 Del(k) == Write(k, DelMark, [op |-> "del", b |-> k[1], n |-> k[2], res |-> "ok", items |-> NoItems, dv |-> NoDev])
 
-(* extra: further backing keys read by the iterator's look-ahead (always {} here; MC_Sandbox quantifies) *)
-Select(b, lo, hi, lim, extra) ==
+(* over(need): the sets of further backing keys the iterator's look-ahead may read besides need   *)
+(* ({{}} here: the minimal cache; MC_Sandbox supplies the alternatives)                            *)
+Select(b, lo, hi, lim, over(_)) ==
   /\ Running /\ b \in {TB, 1, 2} /\ lim >= 0
-  /\ LET ev(r, it, d) == [op |-> "select", b |-> b, lo |-> lo, hi |-> hi, lim |-> lim, res |-> r, items |-> it, dv |-> d] IN
+  /\ LET ev(r, it, d, nd) == [op |-> "select", b |-> b, lo |-> lo, hi |-> hi, lim |-> lim, res |-> r, items |-> it,
+                              dv |-> d, need |-> nd] IN
      IF hi # 0 /\ lo > hi THEN      \* inverted range: the sandbox's own ordered maps refuse it
-        /\ UNCHANGED <<mode, bk, inp, out, req, un, uout>>
+        /\ UNCHANGED <<mode, bk, inp, out, req, pool, un, uout>>
         /\ IF mode = "xm" /\ KF_ScanInvertedRangePanics
-           THEN Log(ev("panic", NoItems, {"KF_ScanInvertedRangePanics"}))
-           ELSE Log(ev("err", NoItems, NoDev))
+           THEN Log(ev("panic", NoItems, {"KF_ScanInvertedRangePanics"}, {}))
+           ELSE Log(ev("err", NoItems, NoDev, {}))
      ELSE
         LET full == Mech(bk, mode, inp, out, b, lo, hi)
-            need == ReqScan(bk, out, full, b, lo, hi, lim)
-        IN /\ inp' = inp \cup need \cup extra
+            need == ReqScan(bk, mode, out, full, b, lo, hi, lim)
+        IN /\ inp' \in {inp \cup need \cup x : x \in over(need)}
            /\ req' = req \cup need
-           /\ UNCHANGED <<mode, bk, out, un, uout>>
-           /\ Log(ev("ok", Items(Take(full, lim)), ScanDev(bk, mode, inp, out, b, lo, hi, lim)))
+           /\ UNCHANGED <<mode, bk, out, pool, un, uout>>
+           /\ Log(ev("ok", Items(Take(full, lim)), ScanDev(bk, mode, inp, out, b, lo, hi, lim), need))
 
 (* utxo_sandbox.go Transfer: whole utxos are selected until the amount is covered, the rest is change *)
 Transfer(amt) ==
   /\ Running /\ amt \in 0..(UAmt + 1)
   /\ LET need == (amt + UAmt - 1) \div UAmt
          ev(r) == [op |-> "transfer", amt |-> amt, res |-> r, items |-> NoItems, dv |-> NoDev]
-     IN IF amt = 0 \/ un + need > NU
-        THEN UNCHANGED <<mode, bk, inp, out, req, un, uout>> /\ Log(ev("err"))
+     IN IF amt = 0 \/ un + need > pool
+        THEN UNCHANGED <<mode, bk, inp, out, req, pool, un, uout>> /\ Log(ev("err"))
         ELSE /\ un' = un + need
              /\ uout' = uout \o <<[to |-> "x", amt |-> amt]>> \o
                         (IF need * UAmt > amt THEN <<[to |-> "a", amt |-> need * UAmt - amt]>> ELSE <<>>)
-             /\ UNCHANGED <<mode, bk, inp, out, req>>
+             /\ UNCHANGED <<mode, bk, inp, out, req, pool>>
              /\ Log(ev("ok"))
 
 (* ------------------------------------------------------------------ programs ------- *)
@@ -208,9 +234,9 @@ Ranges(b) == ProperRanges(b) \cup (IF EdgeBounds THEN EdgeRanges(b) ELSE {})
 
 Step ==
   \/ \E k \in Keys : Get(k) \/ Del(k) \/ \E v \in Vals : Put(k, v)
-  \/ \E b \in {TB, 1, 2} : \E r \in Ranges(b) : \E lim \in Limits : Select(b, r[1], r[2], lim, {})
+  \/ \E b \in {TB, 1, 2} : \E r \in Ranges(b) : \E lim \in Limits : Select(b, r[1], r[2], lim, LAMBDA nd : {{}})
   \/ NU > 0 /\ \E amt \in 0..(UAmt + 1) : Transfer(amt)
-Next == (\E f \in XmStates : Start(f)) \/ Step
+Next == (mode = "idle" /\ \E f \in XmStates : Start(f, NU)) \/ Step
 Spec == Init /\ [][Next]_vars
 
 (* ------------------------------------------------------------------ observables ---- *)
@@ -222,17 +248,18 @@ Obs == [req |-> KeySeq(req), wset |-> WSetSeq(out)]
 (* version in the backing state, anything else = some other version) is sound for this execution:  *)
 (* distinct keys, each with the version and value the backing state holds, covering req.  It is a  *)
 (* constraint, not a pin: further keys (look-ahead) are allowed.                                    *)
-RSetOk(rs) ==
+RSetOkX(bx, rq, o, m, rs) ==
   /\ \A i \in 1..Len(rs) :
         /\ <<rs[i].b, rs[i].n>> \in Keys
-        /\ LET st == bk[<<rs[i].b, rs[i].n>>] IN
+        /\ LET st == bx[<<rs[i].b, rs[i].n>>] IN
            /\ st # "nf"
            /\ rs[i].ver = (IF st \in {"live", "del"} THEN 1 ELSE 0)
            /\ rs[i].v = EntryVal(st)
   /\ \A i, j \in 1..Len(rs) : (rs[i].b = rs[j].b /\ rs[i].n = rs[j].n) => i = j
-  /\ \A k \in req : \E i \in 1..Len(rs) : rs[i].b = k[1] /\ rs[i].n = k[2]
+  /\ \A k \in rq : \E i \in 1..Len(rs) : rs[i].b = k[1] /\ rs[i].n = k[2]
   \* the written keys outside the transient bucket are read keys (follows from req; stated for the record)
-  /\ mode = "xm" => \A k \in Keys : (k[1] # TB /\ out[k] # NoWrite) => \E i \in 1..Len(rs) : rs[i].b = k[1] /\ rs[i].n = k[2]
+  /\ m = "xm" => \A k \in Keys : (k[1] # TB /\ o[k] # NoWrite) => \E i \in 1..Len(rs) : rs[i].b = k[1] /\ rs[i].n = k[2]
+RSetOk(rs) == RSetOkX(bk, req, out, mode, rs)
 
 (* ------------------------------------------------------------------ invariants ----- *)
 TypeOK ==
@@ -240,7 +267,7 @@ TypeOK ==
   /\ bk \in [Keys -> {"never", "live", "del", "emp", "nf"}]
   /\ inp \subseteq Keys /\ req \subseteq Keys
   /\ out \in [Keys -> Vals \cup {NoWrite, DelMark}]
-  /\ un \in 0..NU
+  /\ pool \in 0..NU /\ un \in 0..pool
 (* the modelled cache discipline yields a sound read set: demanded keys and written keys are cached *)
 ReadSetSound ==
   /\ req \subseteq inp
@@ -248,6 +275,7 @@ ReadSetSound ==
   /\ \A k \in inp : bk[k] # "nf"
 (* action properties, checked on every transition: the mechanism's answers are the semantic ones *)
 LastEv == hist'[Len(hist')]
+ScanReadsWhatItSaw == [][(Len(hist') > 0 /\ LastEv.op = "select" /\ LastEv.res = "ok") => LastEv.need \subseteq inp']_vars
 ReadYourWrites ==
   [][(Len(hist') > 0 /\ LastEv.op = "get") =>
        LastEv.res = (LET k == <<LastEv.b, LastEv.n>> IN
